@@ -12,7 +12,7 @@ ASSUME_COMMON = ["lowercase/uppercase meaning = this toolchain's str::to_lowerca
 
 def ctor_decls(tier, seed):
     return (corpus_ctor.build(tier, seed) + corpus_extra.build_perm(tier, seed) + corpus_extra.build_message(tier, seed)
-            + corpus_extra.build_finite(tier, seed) + corpus_extra.build_defaults(tier, seed) + corpus_extra.build_unchecked(tier, seed) + corpus_serde.build(tier, seed) + corpus_arb.build(tier, seed)
+            + corpus_extra.build_finite(tier, seed) + corpus_extra.build_defaults(tier, seed) + corpus_extra.build_unchecked(tier, seed) + corpus_extra.build_homonyms(tier, seed) + corpus_serde.build(tier, seed) + corpus_arb.build(tier, seed)
             + corpus_random.build(tier, seed))
 
 
@@ -109,6 +109,7 @@ def check_c01(tier, seed):
         res.guard("families", len(fams), 4)
         res.guard("const_evaluated", sum_guard(reports, "const_evaluated"), 1)
         res.guard("runtime_cell_bound_changes", sum_guard(reports, "runtime_cell_changed"), 20)
+        res.guard("inputs_repeated_on_other_threads", sum_guard(reports, "inputs_repeated_on_other_threads"), 10000)
         res.guard("twin_groups", sum(1 for r in reports if r["decl"].startswith("twins:")), 3)
         # each bound observed below / on / above
         sides = {"Less": 0, "Equal": 0, "Greater": 0}
